@@ -442,6 +442,81 @@ def normalised(fi: FuncInfo) -> FuncInfo:
     return out
 
 
+def loopified(fi: FuncInfo) -> FuncInfo:
+    """A copy of the function in which a pair "loop" written as comprehensions
+         G = (E for i, j in tree.query_pairs(r))            P = [E for i, j in tree.query_pairs(r) if C]
+         P = [v for v in G if v is not None]
+    is the loop it stands for:  P = []; for i, j in tree.query_pairs(r): v = E; if not (v is not None): continue; P.append(v)."""
+    def is_pairs(e: ast.AST) -> bool:
+        return any(isinstance(c, ast.Call) and astq.callee_name(c) == "query_pairs" for c in ast.walk(e))
+
+    node = copy.deepcopy(fi.node)
+    body = list(node.body)
+    gens: Dict[str, Tuple[int, ast.AST]] = {}
+    for k, st in enumerate(body):
+        if isinstance(st, (ast.Assign, ast.AnnAssign)) and st.value is not None and isinstance(st.value, (ast.GeneratorExp, ast.ListComp)) and len(st.value.generators) == 1 and is_pairs(st.value.generators[0].iter):
+            t = st.targets[0] if isinstance(st, ast.Assign) else st.target
+            if isinstance(t, ast.Name):
+                gens[t.id] = (k, st.value)
+    if not gens:
+        return fi
+    out: List[ast.stmt] = []
+    changed = False
+    drop = set()
+    for k, st in enumerate(body):
+        if k in drop:
+            continue
+        t = (st.targets[0] if isinstance(st, ast.Assign) else st.target) if isinstance(st, (ast.Assign, ast.AnnAssign)) and st.value is not None else None
+        v = st.value if t is not None else None
+        src = None
+        elt = conds = var = None
+        if isinstance(t, ast.Name) and isinstance(v, (ast.ListComp,)) and len(v.generators) == 1 and isinstance(v.generators[0].iter, ast.Name) and v.generators[0].iter.id in gens and isinstance(v.generators[0].target, ast.Name):
+            src = gens[v.generators[0].iter.id]
+            var, elt, conds = v.generators[0].target.id, v.elt, list(v.generators[0].ifs)
+        elif isinstance(t, ast.Name) and isinstance(v, ast.Call) and isinstance(v.func, ast.Name) and v.func.id == "list" and len(v.args) == 1 and isinstance(v.args[0], ast.Name) and v.args[0].id in gens:
+            src = gens[v.args[0].id]
+            var, elt, conds = "_member", ast.Name(id="_member", ctx=ast.Load()), []
+        if src is None:
+            if isinstance(t, ast.Name) and t.id in gens and isinstance(v, ast.ListComp):
+                # the comprehension itself is the collected list
+                g = v.generators[0]
+                loop_body: List[ast.stmt] = [ast.If(test=ast.UnaryOp(op=ast.Not(), operand=c), body=[ast.Continue()], orelse=[]) for c in g.ifs]
+                loop_body.append(ast.Expr(value=ast.Call(func=ast.Attribute(value=ast.Name(id=t.id, ctx=ast.Load()), attr="append", ctx=ast.Load()), args=[v.elt], keywords=[])))
+                new = [ast.Assign(targets=[ast.Name(id=t.id, ctx=ast.Store())], value=ast.List(elts=[], ctx=ast.Load())), ast.For(target=g.target, iter=g.iter, body=loop_body, orelse=[])]
+                for n in new:
+                    ast.copy_location(n, st)
+                    ast.fix_missing_locations(n)
+                # only when nothing else consumes it as a generator first
+                consumers = [x for x in ast.walk(ast.Module(body=body[k + 1 :], type_ignores=[])) if isinstance(x, ast.Name) and x.id == t.id]
+                if consumers and not any(isinstance(b2, (ast.Assign, ast.AnnAssign)) and b2.value is not None and isinstance(b2.value, ast.ListComp) and isinstance(b2.value.generators[0].iter, ast.Name) and b2.value.generators[0].iter.id == t.id for b2 in body[k + 1 :]):
+                    out.extend(new)
+                    changed = True
+                    continue
+            out.append(st)
+            continue
+        gk, g = src
+        gg = g.generators[0]
+        loop_body = [ast.If(test=ast.UnaryOp(op=ast.Not(), operand=c), body=[ast.Continue()], orelse=[]) for c in gg.ifs]
+        loop_body.append(ast.Assign(targets=[ast.Name(id=var, ctx=ast.Store())], value=g.elt))
+        loop_body += [ast.If(test=ast.UnaryOp(op=ast.Not(), operand=c), body=[ast.Continue()], orelse=[]) for c in conds]
+        loop_body.append(ast.Expr(value=ast.Call(func=ast.Attribute(value=ast.Name(id=t.id, ctx=ast.Load()), attr="append", ctx=ast.Load()), args=[elt], keywords=[])))
+        new = [ast.Assign(targets=[ast.Name(id=t.id, ctx=ast.Store())], value=ast.List(elts=[], ctx=ast.Load())), ast.For(target=gg.target, iter=gg.iter, body=loop_body, orelse=[])]
+        for n in new:
+            ast.copy_location(n, body[gk])
+            for x in ast.walk(n):
+                if not hasattr(x, "lineno"):
+                    ast.copy_location(x, body[gk])
+            ast.fix_missing_locations(n)
+        out.extend(new)
+        # the generator's own assignment goes away
+        out = [o for o in out if o is not body[gk]]
+        changed = True
+    if not changed:
+        return fi
+    node.body = out
+    return FuncInfo(fi.module, fi.qualname, node, fi.cls)
+
+
 def constant_tuples(fi: FuncInfo, before: ast.AST) -> Dict[str, ast.expr]:
     """Locals bound once, at the top level of the function before `before`, to a tuple display (immutable): a dispatch table
     written ahead of the loop that walks over it reads like the literal it is."""
